@@ -508,6 +508,8 @@ KW_SEGS = [
     "[parent(x)]", "[!parent()]", "[parent(1,2)]", "[parent( 2 )]", "[parent(1_0)]",
     "[unique()]", "[!unique()]", "[unique(a)]", "[!unique(a)]", "[unique(val)]", "[unique(a,b)]",
     "[distinct()]", "[!distinct()]", "[distinct(a)]", "[distinct(b)]", "[distinct(a,b)]",
+    # parameter texts SearchKeywordTerms.parameters cannot split (the parser accepts an ESCAPED quote; F31, repaired)
+    "[max(\\')]", "[has_child(\\\")]", "[!unique(a\\')]",
 ]
 
 # documents for the keyword handlers: nulls, empty containers, mixed-type lists, lists holding lists / hashes
